@@ -2,6 +2,7 @@ import KadDHT.Driver.Common
 import KadDHT.Driver.C18
 import KadDHT.Driver.C18v
 import KadDHT.Driver.C19
+import KadDHT.Driver.C07
 open KadDHT.Driver
 
 def main (args : List String) : IO UInt32 := do
@@ -9,4 +10,5 @@ def main (args : List String) : IO UInt32 := do
   | ["C18"] => runPure C18.handle; return 0
   | ["C18v"] => runPure C18v.handle; return 0
   | ["C19"] => runLoop C19.step {}; return 0
+  | ["C07"] => runLoop C07.step (KadDHT.ProviderStore.init 1 0); return 0
   | _ => IO.eprintln s!"unknown model {args}"; return 2
